@@ -192,8 +192,64 @@ def run_sequence(cs, ctx):
             ctx.finding(en.F('C14', mon, '%s | schedule %s on %s' % (msg, desc, argv[2:]), schedule=desc,
                              kinds=[f['kind'] for f in faults]),
                         dict(base, schedule=desc, argv=argv[2:], short=ex['short'], trace=[(e['status'], e['sol_status'], bool(e['fault'])) for e in ex['events']]))
+    resolve_schedules(spec, opts, text, argv, K, ctx, rng, base)
     ctx.sample({'argv': argv[2:], 'file': text, 'K': K, 'singles': len(singles), 'pairs': len(pairs),
                 'example_schedule': {'limit': singles[-1][0], 'faults': singles[-1][1]}}, cap=2)
+
+
+def resolve_schedules(spec, opts, text, argv, K, ctx, rng, base):
+    """A sequence on ONE object: a clean solve, then a long idle period (virtual clock), then a second solve
+    under a time limit in which a fault is injected.  The second run is judged exactly like a first one; its
+    elapsed time is measured by the harness from the start of that second solve()."""
+    import sys as _sys
+    from matchingproblems.solver import Solver
+    solver_mod = _sys.modules[Solver.__module__]
+    path = en.write_file(ctx.workdir, text)
+    for kind in KINDS + ['Incumbent']:
+        k = rng.randrange(K)
+        for tf in (0.9,):
+            clock = VirtualClock()
+            real_dt = getattr(solver_mod, 'datetime', None)
+            TAP.reset()
+            TAP.install()
+            TAP.clock = clock
+            solver_mod.datetime = clock
+            ex = {'events': [], 'exc': None, 'short': None, 'long': None, 'solver': None}
+            try:
+                try:
+                    s = Solver(list(argv))
+                    ex['solver'] = s
+                    s.solve()
+                    if any(e['status'] != 1 or e.get('backend_fault') for e in TAP.events):
+                        continue
+                    clock.advance(1000.0)              # the object sits idle far longer than the limit
+                    TAP.events = []
+                    TAP.faults = [{'at': k, 'kind': kind, 'persistent': False, 'values': 'zeros', 'tfrac': tf,
+                                   '_rng': random.Random(k)}]
+                    TAP.time_limit = LIMIT
+                    t0 = clock.t
+                    s.solve(timeLimit=LIMIT)
+                    ex['events'] = list(TAP.events)
+                    ex['virtual_total_s'] = clock.t - t0
+                    TAP.enabled = False
+                    ex['short'] = s.get_results()
+                    ex['long'] = s.get_results_long()
+                except Exception as e:
+                    ex['exc'] = dict(en.exc_info(e), phase='resolve')
+                    ex['events'] = list(TAP.events)
+            finally:
+                TAP.enabled = False
+                solver_mod.datetime = real_dt
+            ctx.cnt('schedules_executed')
+            ctx.cnt('resolve_after_idle_schedules')
+            probs, info = judge(ex, LIMIT)
+            desc = {'limit': LIMIT, 'faults': [{'at': k, 'kind': kind}], 'K': K, 'sequence': 'clean solve, 1000 s idle, faulted re-solve'}
+            if info['applied']:
+                ctx.cnt('schedules_that_diverted_the_run')
+                ctx.nontrivial(sp.shash([text, argv[2:], desc]))
+            for mon, msg in probs:
+                ctx.finding(en.F('C14', mon, '%s | %s on %s' % (msg, desc, argv[2:]), schedule=desc, kinds=[kind]),
+                            dict(base, schedule=desc, argv=argv[2:], short=ex['short']))
 
 
 def real_infeasible(cs, ctx):
